@@ -206,20 +206,25 @@ func crashOffsets(n int, content string, thorough bool) []int {
 func c07Case(ctx *genCtx, ts *tape.Set, dir string) *genResult {
 	pt := ts.Fork("profile")
 	prof := drawProfile(pt, ctx.tier)
-	prof.Q = false
+	prof.Q = pt.Intn(5) == 0
 	if pt.Intn(3) > 0 {
 		prof.Nested = true
 	}
 	w := world.Generate(ts.Fork("world"), prof)
 	plan := drawPlan(ts.Fork("plan"))
 	plan.PkgOrder = 0
-	args := []string{"./p"}
+	args := worldPkgs(w)
 	var flags []string
+	if pt.Intn(5) == 0 {
+		// "for the current sources and flags": histories under customised prefixes
+		w.DrawPrefixes(ts.Fork("prefix"))
+		flags = w.PrefixFlags()
+	}
 	ht := ts.Fork("history")
 	hist := filepath.Join(dir, "h")
 	scr := filepath.Join(dir, "s")
 	pre := filepath.Join(dir, "pre")
-	res := &genResult{Sample: map[string]any{"plan": plan, "args": args}}
+	res := &genResult{Sample: map[string]any{"plan": plan, "args": args, "flags": flags}}
 	var log []string
 	files := w.Render()
 	writeWorld(hist, files)
